@@ -93,6 +93,8 @@ Record inv_obs := {
   v_nifti_err : list (str * nat * err);            (* to_nifti raised for (dir, group) *)
   v_before : list str * list str;                  (* module exclude / include lists before the call *)
   v_after : list str * list str;
+  v_dx_before : extractor;                         (* extract.default_extractor (.ignore_rules, .translators) before / after *)
+  v_dx_after : extractor;
   v_out : out_obs }.
 
 Record state_case := { s_invs : list inv_obs }.
@@ -152,6 +154,8 @@ Definition out_matches (m : outputs) (o : out_obs) : bool :=
 
 Definition lists_match (g : globals) (l : list str * list str) : bool :=
   strs_eqb (g_excl g) (fst l) && strs_eqb (g_incl g) (snd l).
+Definition state_match (g : globals) (l : list str * list str) (dx : extractor) : bool :=
+  lists_match g l && extractor_eqb (g_default_extractor g) dx.
 
 (** the invocations run one after the other from the state observed before the first one *)
 Fixpoint run_check (g : globals) (l : list inv_obs) : bool :=
@@ -159,22 +163,23 @@ Fixpoint run_check (g : globals) (l : list inv_obs) : bool :=
   | [] => true
   | v :: r =>
       let '(g', out) := dcmstack_main g (v_args v) (inputs_of v) in
-      lists_match g (v_before v) && out_matches out (v_out v) && lists_match g' (v_after v) && run_check g' r
+      state_match g (v_before v) (v_dx_before v) && out_matches out (v_out v)
+      && state_match g' (v_after v) (v_dx_after v) && run_check g' r
   end.
 
 Definition start_globals (l : list inv_obs) : globals :=
   match l with
-  | v :: _ => set_lists (initial_globals []) (fst (v_before v)) (snd (v_before v))
+  | v :: _ => set_default_extractor (set_lists (initial_globals []) (fst (v_before v)) (snd (v_before v))) (v_dx_before v)
   | [] => initial_globals []
   end.
 
 Definition check_state (c : state_case) : bool := run_check (start_globals (s_invs c)) (s_invs c).
 
-Fixpoint run_show (g : globals) (l : list inv_obs) : list (list str * list str * outputs) :=
+Fixpoint run_show (g : globals) (l : list inv_obs) : list (list str * list str * extractor * outputs) :=
   match l with
   | [] => []
   | v :: r => let '(g', out) := dcmstack_main g (v_args v) (inputs_of v) in
-              (g_excl g', g_incl g', out) :: run_show g' r
+              (g_excl g', g_incl g', g_default_extractor g', out) :: run_show g' r
   end.
 Definition show_state (c : state_case) := run_show (start_globals (s_invs c)) (s_invs c).
 
